@@ -93,6 +93,11 @@ CHECKS = {
         "For every ordered pair of 3 (quick) / 5 (thorough, incl. a 30 KB one) registries the real Persistence.save runs over an in-memory file system that logs raw operations of CPython's real buffered text stack; the file system after every prefix of that log and after every byte of each raw write is loaded by the real Persistence.load and must equal old or new. Two crash classes are open known findings (truncate-in-place); any other class is reported.",
         "Process-crash model (no power loss). In-memory file system behind aiofiles.threadpool.sync_open.",
         "5/C15"),
+    "C16": ("E2", "exploration",
+        "stateless exhaustive schedule x fault exploration of the real Gateway context manager and Persistence saver on a hand-driven asyncio loop with virtual clock and in-memory file system",
+        "async with Gateway(...) with a body that mutates the registry; every order of {complete next executor job of a load/save, fire the next timer (<= 3), let the body exit} x body returns/raises x connect/disconnect ok/fail x file present/missing; cancelled executor jobs branch into takes-effect / dropped. Oracle: file loaded on entry, save after entry, save interval <= 900 virtual s, disconnect called, no CancelledError, final file = final registry, no task/timer left.",
+        "Executor jobs take effect in submission order; clock horizon 3 timer firings; in-memory file system.",
+        "5/C16"),
     "C19": ("E1", "model_checking",
         "differential explicit-state BFS over the product of two real gateways (old, new protocol)",
         "8 version pairs; every internal/stream type of the older table x 3 payloads in 3-7 base states, and all histories to depth 4 (quick) / 6 (thorough) of lines and send calls; outcome, writes and registry must agree per step.",
